@@ -558,6 +558,11 @@ def plan(tier, seed):
     parts = 4
     for p in range(parts):
         specs.append({'mode': 'real', 'part': p, 'parts': parts, 'seed': seed, 'tier': tier})
+    n, k = (160, 4) if tier == 'quick' else (3000, 12)
+    for i, (a, b) in enumerate(split_range(n, k)):
+        # awaited calls on one object and one event loop, each with a timeout of its own (0.05 .. 0.25 s): a call that
+        # times out must do so at ITS deadline (checks/_async_model.py)
+        specs.append({'mode': 'async-model', 'n': b - a, 'shard': 600 + i, 'seed': seed, 'tier': tier})
     return specs
 
 
@@ -569,11 +574,17 @@ def run_shard(spec, acc):
             return virtual_case(c, acc)
         if c.get('wne'):
             return waitnoecho_case(c, acc)
+        if 'calls' in c:
+            from . import _async_model as AM
+            return AM.run(spec, acc, 'awaited')
         acc.case()
         for mech, detail in real_case(c, acc):
             acc.violation(mech, detail, c)
         return
     m = spec['mode']
+    if m == 'async-model':
+        from . import _async_model as AM
+        return AM.run(spec, acc, 'awaited')
     if m == 'virtual':
         rng = rng_for(spec['seed'], spec['shard'], 5)
         blocked = {}
